@@ -95,6 +95,7 @@ func runCheck(opts checkOpts) int {
 		fmt.Fprintln(os.Stderr, "bipverif: cannot load the tree under test:", err)
 		return 2
 	}
+	p.returnCovers = opts.tier == "thorough"
 	var obls []*Obligation
 	obls = append(obls, p.groundObligations()...)
 	obls = append(obls, p.generate("")...)
@@ -114,7 +115,7 @@ func runCheck(opts checkOpts) int {
 		fnSet[o.Fn] = true
 	}
 	for _, o := range obls {
-		if o.Kind == "cover" && fnSet[o.Fn] {
+		if (o.Kind == "cover" || o.Kind == "cover-return") && fnSet[o.Fn] {
 			sel = append(sel, o)
 		}
 	}
@@ -143,7 +144,48 @@ func runCheck(opts checkOpts) int {
 	perBackend := map[string]int{}
 	var solverTime float64
 	covers := 0
+	// return-path covers: informational, except that a function none of whose returns is
+	// reachable under its own assumptions is certainly verified vacuously
+	{
+		byFn := map[string][3]int{}
+		for _, o := range sel {
+			if o.Kind != "cover-return" {
+				continue
+			}
+			c := byFn[o.Fn]
+			switch o.Result.Status {
+			case "sat":
+				c[0]++
+			case "unsat":
+				c[2]++
+			default:
+				c[1]++
+			}
+			byFn[o.Fn] = c
+		}
+		if len(byFn) > 0 {
+			tot := [3]int{}
+			var dead []string
+			for fn, c := range byFn {
+				tot[0] += c[0]
+				tot[1] += c[1]
+				tot[2] += c[2]
+				if c[0]+c[1] == 0 && c[2] > 0 {
+					dead = append(dead, fn)
+				}
+			}
+			sort.Strings(dead)
+			p.returnCoverStats = map[string]interface{}{"return_paths_shown_reachable": tot[0], "not_refuted_within_budget": tot[1], "refuted_(dead_path_or_split_branch)": tot[2], "functions_with_every_return_refuted": dead}
+			for _, fn := range dead {
+				fmt.Printf("bipverif: VACUITY: no return of %s is reachable under its assumptions\n", fn)
+				toolErr = true
+			}
+		}
+	}
 	for _, o := range sel {
+		if o.Kind == "cover-return" {
+			continue
+		}
 		if o.Kind == "cover" {
 			covers++
 			if !o.ok() {
@@ -281,13 +323,17 @@ func runCheck(opts checkOpts) int {
 func solveAllTier(sel []*Obligation, opts checkOpts, work string) {
 	// covers get a short budget: "not refuted" is all they can show
 	var covers, rest []*Obligation
+	var rcovers []*Obligation
 	for _, o := range sel {
 		if o.Kind == "cover" {
 			covers = append(covers, o)
+		} else if o.Kind == "cover-return" {
+			rcovers = append(rcovers, o)
 		} else {
 			rest = append(rest, o)
 		}
 	}
+	defer solveAll(rcovers, 3, false, work)
 	done := make(chan struct{})
 	ct := 2
 	if opts.tier == "thorough" {
